@@ -1,4 +1,8 @@
 import MobiusModel.Transfers
+import MobiusModel.DownloadRoots
+import MobiusModel.RWLockFlat
+import MobiusModel.Generated.LockNesting
+import MobiusModel.Generated.TransferRoots
 import MobiusModel.Generated.Consts
 /-!
   C08 — Downloads deliver exactly the file's bytes.
@@ -194,5 +198,143 @@ example : (downloadStream exForks {}).1.drop 139 = [1, 2, 3, 4, 5] ++ forkHeader
 example : (downloadReply exForks {}).transferSize = 139 + 5 + 3 := by decide
 example : downloadStream exPlain { resume := some 5, preview := true } = ([], false) := by decide
 example : (downloadStream exPlain { resume := some 6 }).2 = true := by decide
+
+-- ---------------------------------------------------------------- wave d: per-account file roots (which file a download is about)
+
+section Roots
+open DlRoots
+
+/-- `ClientConn.FileRoot()`: the account's own root when it has one, the server's otherwise. -/
+theorem session_root_choice (s : Sess) :
+    (s.acctRoot ≠ [] → s.root = s.acctRoot) ∧ (s.acctRoot = [] → s.root = s.serverRoot) := by
+  unfold Sess.root
+  constructor
+  · intro h; simp [h]
+  · intro h; simp [h]
+
+/-- **Reply and stream describe the same file**, for every pair of configured roots, whatever any root holds:
+    a granted request is answered from the file `f` stored under the SESSION's root, and the transfer connection
+    that presents the registered entry streams that same `f` (so every clause above — `stream_shape`,
+    `reply_file_size`, `reply_transfer_size`, `preview_bare_data` — speaks about one and the same file). -/
+theorem reply_and_stream_same_file (st : Store) (s : Sess) (path : Bytes) (rq : DlRequest) (rep : DlReply) (p : Pending)
+    (h : handleDownload st s path rq = some (rep, p)) :
+    ∃ f, st s.root path = some f ∧ rep = downloadReply f rq ∧ serveTransfer st p = some (downloadStream f rq) ∧
+      streamRoot p = replyRoot s := by
+  obtain ⟨f, hf, hr, hp⟩ := handleDownload_some st s path rq rep p h
+  refine ⟨f, hf, hr, ?_, ?_⟩
+  · subst hp; simp [serveTransfer, hf]
+  · subst hp; rfl
+
+/-- What the reference client obtains from the transfer connection of a rooted session: exactly the data-fork bytes,
+    from the requested offset, of the file under the session's root. -/
+theorem rooted_client_recovers_data (st : Store) (s : Sess) (path : Bytes) (rq : DlRequest) (rep : DlReply) (p : Pending)
+    (h : handleDownload st s path rq = some (rep, p)) (hp : rq.preview = false)
+    (hwf : ∀ f, st s.root path = some f → f.WF ∧ off rq ≤ f.data.length) :
+    ∃ f out, st s.root path = some f ∧ serveTransfer st p = some out ∧
+      splitDownload out.1 rep.fileSize = some (f.effInfo.encode, f.data.drop (off rq), f.forkPart rq.resume.isSome) := by
+  obtain ⟨f, hf, hr, hs, _⟩ := reply_and_stream_same_file st s path rq rep p h
+  obtain ⟨hw, hk⟩ := hwf f hf
+  exact ⟨f, _, hf, hs, by rw [hr]; exact client_recovers_data f rq hw hp hk⟩
+
+/-- Frame over roots: two stores that agree under the session's root at the path give the same reply and the same
+    stream (the server's root, other accounts' roots and everything else are irrelevant). -/
+theorem other_roots_irrelevant (st st' : Store) (s : Sess) (path : Bytes) (rq : DlRequest)
+    (hag : st s.root path = st' s.root path) :
+    handleDownload st s path rq = handleDownload st' s path rq ∧
+    ∀ rep p, handleDownload st s path rq = some (rep, p) → serveTransfer st p = serveTransfer st' p := by
+  constructor
+  · unfold handleDownload; rw [hag]
+  · intro rep p h
+    obtain ⟨f, _, _, hp⟩ := handleDownload_some st s path rq rep p h
+    subst hp; simp [serveTransfer, hag]
+
+/-- The server-wide table: the transfer connection that presents the reference number of a grant is served the file
+    of the session that made the request, and the pending transfers of all other sessions are untouched. -/
+theorem table_transfer_serves_its_request (st : Store) (t t' : Table) (ref : Bytes) (s : Sess) (path : Bytes)
+    (rq : DlRequest) (rep : DlReply) (h : request st t ref s path rq = (t', some rep)) :
+    (∃ f, st s.root path = some f ∧ rep = downloadReply f rq ∧ transfer st t' ref = some (downloadStream f rq)) ∧
+    ∀ r, r ≠ ref → transfer st t' r = transfer st t r := by
+  unfold request at h
+  cases hd : handleDownload st s path rq with
+  | none => rw [hd] at h; simp at h
+  | some rp =>
+    obtain ⟨rep0, p⟩ := rp
+    rw [hd] at h
+    simp only [Prod.mk.injEq, Option.some.injEq] at h
+    obtain ⟨ht, hr⟩ := h
+    subst ht; subst hr
+    obtain ⟨f, hf, hrep, hs, _⟩ := reply_and_stream_same_file st s path rq rep0 p hd
+    constructor
+    · exact ⟨f, hf, hrep, by simp [transfer, Table.get_cons_self, hs]⟩
+    · intro r hne
+      simp [transfer, Table.get_cons_ne t ref r p (Ne.symm hne)]
+
+/-- Regenerated from source on every run: the premise of the routing model — every transfer-granting handler uses
+    ONE root expression, the session's `cc.FileRoot()`, both where it resolves the request (`ReadPath`) and where it
+    registers the transfer (`NewFileTransfer`); the transfer connection resolves the registered root; and
+    `ClientConn.FileRoot` prefers the account's own root (`Sess.root`). -/
+theorem generated_transfer_roots_agree :
+    (∀ e ∈ Generated.transferRootSites, e.2.2 = "cc.FileRoot()") ∧
+    ("HandleDownloadFile", "register", "cc.FileRoot()") ∈ Generated.transferRootSites ∧
+    ("HandleDownloadFile", "readpath", "cc.FileRoot()") ∈ Generated.transferRootSites ∧
+    Generated.transferResolves = ["fileTransfer.FileRoot"] ∧
+    Generated.sessionRootBody = ["if cc.Account.FileRoot != \"\" { return cc.Account.FileRoot }", "return cc.Server.Config.FileRoot"] := by
+  decide
+
+/-- two roots holding DIFFERENT files under the same path: "/srv" (the server's) and "/acct" (an account's own). -/
+def exStore : Store := fun root path =>
+  if path = [97] then
+    if root = [47, 115, 114, 118] then some exPlain
+    else if root = [47, 97, 99, 99, 116] then some { exForks with data := [7, 7, 7, 7, 7, 7, 7, 7, 7] }
+    else none
+  else none
+
+def exAcctSess : Sess := { serverRoot := [47, 115, 114, 118], acctRoot := [47, 97, 99, 99, 116] }
+def exPlainSess : Sess := { serverRoot := [47, 115, 114, 118] }
+
+example : (handleDownload exStore exAcctSess [97] {}).map (·.1.fileSize) = some 9 := by decide
+example : (handleDownload exStore exPlainSess [97] {}).map (·.1.fileSize) = some 5 := by decide
+example : ((handleDownload exStore exAcctSess [97] { resume := some 4 }).bind fun r => serveTransfer exStore r.2).map
+    (fun o => o.1.drop 139) = some ([7, 7, 7, 7, 7] ++ [9, 8, 7]) := by decide
+example : (transfer exStore (request exStore (request exStore [] [0, 1] exPlainSess [97] {}).1 [0, 2] exAcctSess [97] {}).1 [0, 1]).map
+    (fun o => o.1.drop 137) = some ([1, 2, 3, 4, 5] ++ forkHeader macr 0) := by decide
+
+end Roots
+
+-- ---------------------------------------------------------------- wave d: the statistics mutex cannot keep a granted download from being sent
+
+section StatsLock
+open RWFlat
+
+/-- Regenerated from source on every run: no method calls a locking method of its own receiver while it holds the
+    receiver's lock (so every call of a `Stats` method is ONE flat critical section), and the generator does see the
+    methods in question (`Values` / `Get` under the read lock, `Increment` / `Decrement` / `Set` under the write lock). -/
+theorem generated_lock_sections_are_flat :
+    Generated.lockedSelfCalls = [] ∧
+    ("Stats.Values", "R") ∈ Generated.lockingMethods ∧ ("Stats.Get", "R") ∈ Generated.lockingMethods ∧
+    ("Stats.Increment", "W") ∈ Generated.lockingMethods ∧ ("Stats.Decrement", "W") ∈ Generated.lockingMethods ∧
+    ("Stats.Set", "W") ∈ Generated.lockingMethods := by decide
+
+/-- Any number of goroutines, each making any sequence of calls of such methods (`true` = a method under the write
+    lock: what a transfer connection does before and after it sends; `false` = under the read lock: what a statistics
+    reader does), in any schedule: no reachable state has work left and nobody able to move.  In particular the
+    `Increment` a granted download waits for is never blocked for ever by readers polling `Values`. -/
+theorem stats_goroutines_never_deadlock (calls : List (List Bool)) (s : State)
+    (hr : Reach (initial (calls.map fun c => c.flatMap methodProg)) s) : stuck s = false := by
+  apply no_deadlock _ _ s hr
+  intro p hp
+  simp only [List.mem_map] at hp
+  obtain ⟨c, _, rfl⟩ := hp
+  exact flat_of_calls c
+
+/-- Why the premise is needed: ONE reader that takes the read lock again while holding it (`Values` calling `Get`)
+    and one writer (`Increment`) reach a state in which nobody can ever move. -/
+theorem reentrant_read_lock_deadlocks : ∃ s, Reach nestedExample s ∧ stuck s = true := nested_rlock_deadlocks
+
+/-- three pollers and two transfers, all idle at the start: a flat system (non-vacuity of the hypothesis). -/
+example : stuck (initial ([[false, false, false], [false], [false, false], [true, true], [true, true]].map fun c => c.flatMap methodProg)) = false := by decide
+example : (initial [[true, true].flatMap methodProg]) = [{ prog := [.lock, .unlock, .lock, .unlock] }] := by decide
+
+end StatsLock
 
 end Mobius.C08
